@@ -5,6 +5,11 @@ use crate::refmodel::parse::Ast;
 use crate::refmodel::value::RV;
 use crate::rng::Rng;
 
+/// sizes around powers of two and common inline-buffer sizes: lengths of strings, identifiers, tuples, chains
+pub const BOUNDARY_SIZES: [usize; 35] = [
+    1, 2, 3, 4, 5, 7, 8, 9, 15, 16, 17, 22, 23, 24, 25, 31, 32, 33, 63, 64, 65, 127, 128, 129, 254, 255, 256, 257, 511, 512, 513, 1023, 1024, 1025, 2048,
+];
+
 pub fn int_pool() -> Vec<i64> {
     vec![
         0,
